@@ -1,7 +1,7 @@
 P = {
     'id': 'C11',
     'design_ref': 'DESIGN.md section 5 (C11), section 6 (F1)',
-    'level_text': 'Coq theorems (Props/C11.v, 22, all closed under the global context) over all lockup schedules, amounts and '
+    'level_text': 'Coq theorems (Props/C11.v, 28, all closed under the global context) over all lockup schedules, amounts and '
                   'block times and over all histories of set-up / liquidate / transfer / partial and full redeem / failing messages '
                   'across any number of holders: C11_split_exact (per period left + moved = original, both >= 0, moved total = '
                   'requested, lengths kept), C11_split_error_guard, C11_split_no_panic, C11_split_residue_lt_n, C11_split_time, '
@@ -10,10 +10,19 @@ P = {
                   'of holdings), C11_schedule_sums_to_supply, C11_accounts_stay_valid, C11_redeem_exact_amount, '
                   'C11_redeem_no_early_unlock (recipient ordinary / existing vesting account with earlier or later start / self), '
                   'C11_denom_schedule_only_shrinks, C11_disjunct_is_union, C11_redeem_no_early_unlock_refuted for the merge-start '
-                  'computation before commit 83e9993 (finding F1) with C11_merge_start_agree; the model is the executable Gallina '
+                  'computation before commit 83e9993 (finding F1) with C11_merge_start_agree; over time, for redeems into EXISTING '
+                  'vesting accounts: C11_merge_keeps_both_locked (for all accounts, grants and times GetLockedUpCoins / LockedCoins of the '
+                  'merged account >= what the own lockup still holds + what the redeemed share still holds at its original absolute times, '
+                  'in particular after the end of the account\'s own schedule), C11_merge_end_rule_refuted (end := max(old end, new vesting '
+                  'end) frees a longer share at the old end through ReadSchedule\'s t >= end shortcut), C11_no_early_unlock_obligations '
+                  '(over all histories incl. probes: obligations written down independently of the account records = locked by the lockup '
+                  'schedule <= GetLockedUpCoins <= LockedCoins, from the last redeem on), C11_two_tokens_same_account (short token then long '
+                  'token into one fresh account), C11_merge_bank_locked_partial with C11_merge_bank_locked_unvested_refuted (the bank\'s '
+                  'LockedCoins also keeps the own unvested coins only while the own vesting is not behind the own lockup); the model is the executable Gallina '
                   'transcription of x/liquidvesting/types/schedule.go, keeper/msg_server.go, keeper/denom.go and of the part of '
                   'x/vesting that Redeem reaches (ReadSchedule, DisjunctPeriods, NewClawbackVestingAccount, addGrant), compared on '
-                  'every run with the real pure functions and with the real message router (incl. ERC20 conversion through the EVM)',
+                  'every run with the real pure functions and with the real message router (incl. ERC20 conversion through the EVM) '
+                  'and, at every message and probe time, with LockedCoins of the real accounts',
     'level_note': 'trusted: Coq kernel + vm_compute, std++; the hand-written model (tied to /repo only by the sampled correspondence run); '
                   'bank transfers / mint / burn, the erc20 token pair (ConvertCoin / ConvertERC20 / balanceOf), baseapp atomicity, '
                   'store/codec are modelled (a holder\'s tokens = bank coins + ERC20 balance), not verified; int64 / 256-bit '
@@ -30,7 +39,7 @@ P = {
         'pure': {'type': 'pcase', 'check': 'pmismatches', 'shard': 200},
         'hist': {'type': 'list (op * obs)', 'check': 'mismatches true', 'shard': 25},
     },
-    'search': {'rounds': 4, 'n': 4000},
+    'search': {'rounds': 3, 'n': 2400},
     'rule': 'driver liquid emits 7 pure cases per history. A pure case is one call of the real SubtractAmountFromPeriods (half '
             'of them; 0-12 periods, amounts small / many zero / near 2^120 / all equal / one huge + many tiny, lengths zero / '
             'small / up to 2^36, sub = total, 1, 0, total-1, total+1, random; ~20% with 1-2 further denominations in the '
@@ -39,12 +48,25 @@ P = {
             'error). A history is 6-14 ops (set-up: vesting account with lockup schedule of 1-6 periods, free funds, module '
             'params; messages: MsgLiquidate, MsgRedeem at chosen block times, transfer of liquid tokens by bank MsgSend or '
             'ERC20-to-coin conversion + MsgMultiSend) over 4 accounts on a fresh fork of a real app, amounts at 2^20 / 2^64 / '
-            '2^120 scale, generated online from the implementation\'s own state; non-trivial = at least one liquidation and one '
+            '2^120 scale, generated online from the implementation\'s own state, closed by a probe op: the block time advances '
+            'explicitly over every event boundary -1/0/+1 of every account and denom, every account end and beyond). Every second history is a '
+            'scenario: two source accounts whose schedules end at different / equal times, one token cut from each (sometimes a third), '
+            'redeemed partially / fully in either order into ONE target that is fresh, the holder, a liquidator, or a pre-existing vesting '
+            'account ending before / between / with / after the tokens (own lockup over or running, 12% own vesting running), sometimes '
+            'delegating or clawed back in between (delegate / clawback ops: oracle only, the Coq term is the prefix before them), probes '
+            'between the redeems and over all boundaries at the end; times only move forward. Time oracle (independent of the model and of '
+            'the account records): obligations = + the set-up lockup schedule (the op itself), - every liquidated token\'s recorded schedule, '
+            '+ every redeemed share (difference of the token\'s record before / after, at the token\'s start); after every op and at every '
+            'probe time, for every account that received a share: (balance - spendable) + bonded + unbonding >= sum of the unreleased parts, '
+            'on the real bank / staking keepers, with executed bank sends on a fork (spendable+1 must fail, spendable may succeed). Not '
+            'demanded (tagged candidate:*, demanded with -arg strict=1): targets whose OWN vesting is still running (the bank additionally '
+            'held their unvested coins) and accounts clawed back while it was. non-trivial = at least one liquidation and one '
             'redeem or transfer succeeded; distinct = distinct inputs',
     'trusted_base': [
         'Coq 8.16.1 kernel incl. vm_compute (no native_compute); std++ 1.8.0 gmap',
         'axioms: none (Print Assumptions: closed under the global context for every theorem of Props/C11.v)',
-        'correspondence harness harness/liquid.go + vlib/core.py (generator, canonicaliser, oracle, shrinker)',
+        'correspondence harness harness/liquid.go, harness/liquid_time.go (obligation oracle on the real bank / staking keepers, '
+        'executed sends on a fork, scenario generator) + vlib/core.py (generator, canonicaliser, oracle, shrinker)',
         'modelled, not verified: bank send / mint / burn and supply, locked-coin check of the bank on a vesting account, the erc20 '
         'module (token pair registration, ConvertCoin, ConvertERC20, balanceOf through the EVM), baseapp message atomicity '
         '(cache context written back only on success), KV store and codec',
@@ -55,7 +77,9 @@ P = {
     'assumptions': [
         'only Liquidate / Redeem move aISLM of the liquidvesting module account and mint / burn aLIQUID<n> (module accounts are blocked recipients)',
         'a holder\'s liquid tokens are bank coins plus the ERC20 balance of the registered pair; conversion between the two is value preserving',
-        'nothing is delegated from the accounts involved; every address already has an (Eth) account',
+        'in the modelled part of a history nothing is delegated from the accounts involved (delegations and clawbacks occur only in the '
+        'oracle-only suffix); every address already has an (Eth) account',
+        'block time does not decrease (obligations are checked from the latest block time seen on)',
         'amounts fit the 256 bits of math.Int also when multiplied pairwise (aISLM supply is below 2^97), times fit int64',
         'a failed message leaves no state behind (baseapp runMsgs semantics, reproduced by the harness with CacheContext)',
     ],
